@@ -59,10 +59,12 @@ class Tr:
             return self.env[self.subst[ast.dump(n)]]
         if isinstance(n, ast.Constant) and isinstance(n.value, int) and not isinstance(n.value, bool):
             return "int"
-        if isinstance(n, ast.BinOp) and isinstance(n.op, ast.Pow):
+        if isinstance(n, ast.BinOp) and isinstance(n.op, (ast.Pow, ast.FloorDiv)):
             if self.ty(n.left) == "int" and self.ty(n.right) == "int":
                 return "int"
-            raise Unsupported("power of non-integers")
+            raise Unsupported("power / floor division of non-integers")
+        if isinstance(n, ast.UnaryOp) and isinstance(n.op, ast.USub) and self.ty(n.operand) == "int":
+            return "int"
         if isinstance(n, ast.Name):
             if n.id not in self.env:
                 raise Unsupported("unknown name " + n.id)
@@ -171,6 +173,14 @@ class Tr:
         if isinstance(n, ast.BinOp) and isinstance(n.op, ast.Pow):
             self.ty(n)
             return "(%s ^ (%s).toNat)" % (self.P(n.left), self.P(n.right))       # a non-negative exponent (the caller's guard)
+        if isinstance(n, ast.BinOp) and isinstance(n.op, ast.FloorDiv):
+            self.ty(n)
+            if not (isinstance(n.right, ast.Constant) and isinstance(n.right.value, int) and n.right.value != 0):
+                raise Unsupported("floor division by a non-constant")
+            return "(Py.fdiv %s %s)" % (self.P(n.left), self.P(n.right))
+        if isinstance(n, ast.UnaryOp) and isinstance(n.op, ast.USub):
+            self.ty(n)
+            return "(-%s)" % self.P(n.operand)
         if isinstance(n, ast.Compare) and len(n.ops) == 2 and all(self.ty(x) == "int" for x in [n.left] + n.comparators):
             syms = [{ast.Lt: "<", ast.LtE: "≤", ast.Gt: ">", ast.GtE: "≥", ast.Eq: "=", ast.NotEq: "≠"}.get(type(o)) for o in n.ops]
             if all(syms):
@@ -496,6 +506,89 @@ def gen_rule_tables(repo, out):
     return status
 
 
+ST_HEADER = '''import Cpl.Py
+import Cpl.Gen.Blocks
+/-! GENERATED by tools/py2lean_comp.py from /repo/cellpylib/ca_functions.py (`_index_strides` on a 1-D array: the padded
+array, the shape arithmetic, the strided view) on every run. Do not edit. `Option`: `none` = NumPy raises (a negative
+dimension) or the view would read outside the buffer. -/
+
+namespace Cpl
+
+/-- `np.lib.stride_tricks.as_strided(a, shape=(rows, cols), strides=(s, s))` on a 1-D array whose element stride is `s`:
+    entry `(i, j)` is `a[i + j]`. -/
+def stridedView (a : List Int) (rows cols : Int) : Option (List (List Int)) :=
+  if rows < 0 ∨ cols < 0 then none
+  else (pyRange 0 rows 1).mapM fun i => (pyRange 0 cols 1).mapM fun j => (Py.getIdx a (i + j)).toOption
+
+end Cpl
+
+namespace Cpl.Gen.Strides
+open Cpl
+'''
+
+
+def gen_strides(repo, out):
+    parts = [ST_HEADER]
+    status = {}
+    attempt = make_attempt(parts, status)
+
+    def strides():
+        tree = ast.parse(open(os.path.join(repo, "cellpylib", "ca_functions.py")).read())
+        fn = find(tree.body, ast.FunctionDef, "_index_strides")
+        if [x.arg for x in fn.args.args] != ["arr", "window_size"]:
+            raise Unsupported("parameters of _index_strides")
+        body = [st for st in fn.body if not (isinstance(st, ast.Expr) and isinstance(st.value, ast.Constant))]
+        if len(body) != 4:
+            raise Unsupported("_index_strides has not exactly four statements")
+        s1, s2, s3, s4 = body
+        tr = Tr({"window_size": "int"}, {})
+        # 1. arr = np.concatenate((piece, ...)) with pieces arr / arr[lo:] / arr[:hi] / arr[lo:hi]
+        if not (isinstance(s1, ast.Assign) and ast.unparse(s1.targets[0]) == "arr" and isinstance(s1.value, ast.Call)
+                and ast.unparse(s1.value.func) == "np.concatenate" and len(s1.value.args) == 1 and not s1.value.keywords
+                and isinstance(s1.value.args[0], ast.Tuple)):
+            raise Unsupported("first statement is not arr = np.concatenate((...))")
+        pieces = []
+        for e in s1.value.args[0].elts:
+            if isinstance(e, ast.Name) and e.id == "arr":
+                pieces.append("v_arr")
+            elif isinstance(e, ast.Subscript) and isinstance(e.value, ast.Name) and e.value.id == "arr" and isinstance(e.slice, ast.Slice) and e.slice.step is None:
+                lo, hi = e.slice.lower, e.slice.upper
+                if lo is not None and hi is not None:
+                    pieces.append("(Py.slice v_arr %s %s)" % (tr.P(lo), tr.P(hi)))
+                elif lo is not None:
+                    pieces.append("(Py.sliceFrom v_arr %s)" % tr.P(lo))
+                elif hi is not None:
+                    pieces.append("(Py.sliceTo v_arr %s)" % tr.P(hi))
+                else:
+                    pieces.append("v_arr")
+            else:
+                raise Unsupported("piece of the concatenation: " + ast.unparse(e))
+        # 2. shape = arr.shape[:-1] + (rows, cols)   (1-D: arr.shape[:-1] is empty)
+        if not (isinstance(s2, ast.Assign) and ast.unparse(s2.targets[0]) == "shape" and isinstance(s2.value, ast.BinOp) and isinstance(s2.value.op, ast.Add)
+                and ast.unparse(s2.value.left) == "arr.shape[:-1]" and isinstance(s2.value.right, ast.Tuple) and len(s2.value.right.elts) == 2):
+            raise Unsupported("second statement is not shape = arr.shape[:-1] + (rows, cols)")
+        alen = ast.dump(ast.parse("arr.shape[-1]", mode="eval").body)
+        tr2 = Tr({"window_size": "int", "alen": "int"}, {}, subst={alen: "alen"})
+        rows, cols = [tr2.P(e) for e in s2.value.right.elts]
+        # 3. strides = arr.strides + (arr.strides[-1],)   (1-D: both strides are the element stride)
+        if not (isinstance(s3, ast.Assign) and ast.unparse(s3.targets[0]) == "strides" and ast.unparse(s3.value) == "arr.strides + (arr.strides[-1],)"):
+            raise Unsupported("third statement is not strides = arr.strides + (arr.strides[-1],)")
+        # 4. return as_strided(arr, shape=shape, strides=strides)
+        if not (isinstance(s4, ast.Return) and isinstance(s4.value, ast.Call) and ast.unparse(s4.value.func) == "np.lib.stride_tricks.as_strided"
+                and [ast.unparse(x) for x in s4.value.args] == ["arr"]
+                and sorted((k.arg, ast.unparse(k.value)) for k in s4.value.keywords) == [("shape", "shape"), ("strides", "strides")]):
+            raise Unsupported("fourth statement is not return as_strided(arr, shape=shape, strides=strides)")
+        return ("/-- `_index_strides(arr, window_size)` on a 1-D integer array (ca_functions.py), translated. -/\n"
+                "def indexStrides (v_arr0 : List Int) (v_window_size : Int) : Option (List (List Int)) :=\n"
+                "  let v_arr : List Int := v_arr0\n"
+                "  let v_arr : List Int := %s\n"
+                "  let v_alen : Int := ((List.length v_arr : Nat) : Int)\n"
+                "  Cpl.stridedView v_arr %s %s" % (" ++ ".join(pieces), rows, cols))
+    attempt("indexStrides", strides)
+    emit(out, "Strides.lean", parts, status, "Cpl.Gen.Strides")
+    return status
+
+
 def main():
     ap = argparse.ArgumentParser()
     ap.add_argument("--repo", default="/repo")
@@ -504,6 +597,7 @@ def main():
     st = gen_apen(a.repo, a.out)
     st.update(gen_entropy(a.repo, a.out))
     st.update(gen_rule_tables(a.repo, a.out))
+    st.update(gen_strides(a.repo, a.out))
     print("py2lean_comp: " + "; ".join("%s %s" % kv for kv in st.items()))
     sys.exit(0)
 
